@@ -7,37 +7,49 @@
 (***************************************************************************)
 EXTENDS Integers, Sequences, TLC, Json, Rat
 
-CONSTANTS N, Depth, Emit
-VARIABLES ends, pieces, handle, off, last, vprev, vlast, lastop, before
+CONSTANTS N, Depth, Emit,
+          Kind      \* "poly": two-lane pieces (degree 1), every operation (the design-level model);
+                    \* "q": six-lane pieces as IntOfLogPoly4 has them, no derivative and no integral -- the only
+                    \* shipped piece type the library can add and subtract, so + and - can be replayed on it
+VARIABLES ends, pieces, handle, off, last, vprev, vlast, lastop, before,
+          hist      \* the operations so far (hidden by the VIEW): one representative script per reachable state
 
 L == INSTANCE Library WITH Zero <- RZero, One <- ROne, Add <- RAdd, Sub <- RSub, Mul <- RMul, Div <- RDiv,
                            Neg <- RNeg, Abs <- RAbs, Leq <- RLeq, FromInt <- RInt, MaxDeg <- 3
 
-Vecs == { << RInt(1), RInt(2) >>, << RInt(-2), RInt(0) >>, << RInt(0), RInt(3) >> }
+Pad(v) == IF Kind = "q" THEN v \o << RInt(1), RInt(0), RFrac(-1, 2), RInt(2) >> ELSE v
+Vecs == { Pad(v) : v \in { << RInt(1), RInt(2) >>, << RInt(-2), RInt(0) >>, << RInt(0), RInt(3) >> } }
 EndLists(n) == { q \in [1..n -> { RInt(0), RInt(1), RInt(2) }] : \A j \in 1..(n - 1) : RLeq(q[j], q[j + 1]) }
 Objects == UNION { { [ends |-> e, pieces |-> p] : e \in EndLists(n), p \in [1..n -> Vecs] } : n \in 1..N }
 \* operands for + and -: one single-piece and one two-piece function
-G == { [ends |-> << RInt(1) >>, pieces |-> << << RInt(1), RInt(1) >> >>],
-       [ends |-> << RInt(0), RInt(2) >>, pieces |-> << << RInt(2), RInt(-1) >>, << RInt(0), RInt(1) >> >>] }
+G == { [ends |-> << RInt(1) >>, pieces |-> << Pad(<< RInt(1), RInt(1) >>) >>],
+       [ends |-> << RInt(0), RInt(2) >>, pieces |-> << Pad(<< RInt(2), RInt(-1) >>), Pad(<< RInt(0), RInt(1) >>) >>] }
 Xs == { RFrac(t, 2) : t \in (-1)..5 }
 
 Init ==
     \E o \in Objects :
         /\ ends = o.ends /\ pieces = o.pieces /\ handle = "none" /\ off = 0 /\ last = o.ends[1] /\ vprev = 0 /\ vlast = << >>
         /\ lastop = [op |-> "init"] /\ before = o
+        /\ hist = << [op |-> "create", ends |-> o.ends, pieces |-> o.pieces] >>
 
-Next ==
+Step ==
     \/ \E s \in { RInt(-1), RInt(2) } : L!Scale(s)
     \/ L!Negate
     \/ L!Translate(RInt(3))
-    \/ L!Derive
-    \/ \E k \in { << RInt(0), RInt(1) >>, << RInt(-1), RInt(0) >> } : L!Integrate(k[1], k[2])
+    \/ (Kind = "poly" /\ L!Derive)
+    \/ (Kind = "poly" /\ \E k \in { << RInt(0), RInt(1) >>, << RInt(-1), RInt(0) >> } : L!Integrate(k[1], k[2]))
     \/ \E g \in G : \E sub \in BOOLEAN : L!Combine(g, sub)
     \/ \E x \in Xs : L!Evaluate(x)
     \/ L!NewHandle \/ L!DropHandle
     \/ \E x \in Xs : L!HandleQuery(x)
     \/ L!BatchStart \/ L!BatchEnd
     \/ \E x \in Xs : L!BatchFeed(x)
+Next == Step /\ hist' = Append(hist, lastop')
+
+View == << ends, pieces, handle, off, last, vprev, vlast, lastop, before >>
+\* spec -> impl: one script per state of the last level; `vh replay-events lib` runs it through the real code and
+\* logs ordinary `lib` events, so Trace_Library judges the model's own behaviours as executed by the implementation
+EmitScript == (Emit /\ TLCGet("level") = Depth) => PrintT(<< "REPLAY", ToJson([kind |-> Kind, ops |-> hist]) >>)
 
 Bound == TLCGet("level") <= Depth
 
